@@ -138,6 +138,23 @@ theorem C11_resolved_by_bound (cfg : Cfg) (h0 : 0 ≤ cfg.timeout) (h1 : 0 ≤ c
   have hI := trace_sound cfg h0 h1 evs {} {} (StepInv.init cfg) hnf
   exact hI.nover _ (hI.inv.pendTimer q hq hp)
 
+/-- The OPERATION reports the timeout: when the timer of an unresolved coordinator request
+    (`_send_request_to_coordinator`: join, sync, heartbeat, leave) fires, the same callback chain - four actions:
+    the timeout, the request's completion with the substituted failure, the operation's failure path, its
+    Deferred - makes the operation's Deferred fail with `RequestTimedOutError` (and with nothing else: it is the
+    only result that chain emits for it).  For sends the timed-out request's payloads are reported as failed
+    payloads with the same error (`C07_failed_payloads` on the kernel; the monitor's extra rule rejects a timeout
+    that surfaces as a cancellation). -/
+theorem C11_timeout_reported (cfg : Cfg) (st : St) (k r : Nat) (q : Req) (x : Srtc)
+    (hq : reqGet st k = some q) (hp : q.pending = true) (ho : q.owner = .srtc r)
+    (hx : srtcGet st r = some x) (hl : st.liveOps.contains x.o = true) :
+    Ob.result x.o (.fail Kind.timedOut) ∈ (runActs cfg 4 st [.timeoutFired k] []).2 := by
+  have hx' : List.find? (fun x => x.r == r) st.srtcs = some x := by simpa [srtcGet] using hx
+  have hs : ∀ f, (setReq st k f).srtcs = st.srtcs := fun f => rfl
+  have hlo : ∀ f, (setReq st k f).liveOps = st.liveOps := fun f => rfl
+  have hl' : x.o ∈ st.liveOps := by simpa using hl
+  simp [runActs, exec, hq, hp, ho, reqDone, srtcGet, hs, hx', setSrtc, hlo, hl']
+
 /-! Non-vacuity: a request to a silent broker times out after exactly the bound and the connection is
     dropped; a request with a 35 s minimum is armed with 35 s; the late reply is discarded. -/
 example :
@@ -161,6 +178,7 @@ C11_late_reply_discarded
 C11_disconnect_on_timeout
 C11_model_traces_satisfy_monitor
 C11_resolved_by_bound
+C11_timeout_reported
 -/
 /- OPEN_STATEMENTS
 -/
